@@ -22,6 +22,8 @@ pub mod wait_io;
 use std::ops::Deref;
 use std::os::fd::{AsFd, BorrowedFd};
 use std::os::unix::io::{AsRawFd, RawFd};
+#[cfg(feature = "io_timeout")]
+use std::sync::atomic::AtomicBool;
 use std::sync::atomic::{AtomicUsize, Ordering};
 use std::sync::Arc;
 use std::{fmt, io};
@@ -88,6 +90,9 @@ fn timeout_handler(data: TimerData) {
     may_queue::verif::point(may_queue::verif::site::IO_TIMEOUT_HANDLER_ENTER, 0);
     // remove the event timer
     event_data.timer.take();
+    // leave a trace before looking for the coroutine: a `subscribe` that stores
+    // it later than that has to report the timeout itself
+    event_data.timer_fired.store(true, Ordering::SeqCst);
 
     #[cfg(may_verif)]
     may_queue::verif::point(may_queue::verif::site::IO_TIMEOUT_TIMER_TAKEN, 0);
@@ -122,6 +127,9 @@ pub struct EventData {
     // set by the thread that subscribes the io, taken by the selector thread
     #[cfg(feature = "io_timeout")]
     pub timer: AtomicOption<TimerHandle>,
+    // set by the timeout handler, cleared when the next timer is armed
+    #[cfg(feature = "io_timeout")]
+    pub timer_fired: AtomicBool,
     pub co: AtomicOption<CoroutineImpl>,
 }
 
@@ -135,7 +143,21 @@ impl EventData {
             io_flag: AtomicUsize::new(0),
             #[cfg(feature = "io_timeout")]
             timer: AtomicOption::none(),
+            #[cfg(feature = "io_timeout")]
+            timer_fired: AtomicBool::new(false),
             co: AtomicOption::none(),
+        }
+    }
+
+    /// called by `subscribe` of a timed io after it stored the coroutine: if the timer
+    /// armed for it fired while the slot was still empty the timeout is reported here
+    #[cfg(feature = "io_timeout")]
+    pub fn check_timer_fired(&self) {
+        if self.timer_fired.swap(false, Ordering::SeqCst) {
+            if let Some(mut co) = self.co.take() {
+                set_co_para(&mut co, io::Error::new(io::ErrorKind::TimedOut, "timeout"));
+                get_scheduler().schedule(co);
+            }
         }
     }
 
